@@ -39,28 +39,65 @@ type mverdict struct {
 //
 // keyPrefix is prepended to finding keys; opts select the canonical form.
 func judgeModel(c *MCase, opts canon.Options) mverdict {
+	return judgeModelWith(c, opts, apiRunner)
+}
+
+// toolRunner applies a patch text to a file through some interface of gopatch.
+// rejected is non-empty when the patch itself was not accepted.
+type toolRunner func(patchText string, c *MCase) (out []byte, err error, rejected string)
+
+func apiRunner(patchText string, c *MCase) ([]byte, error, string) {
+	pf, err := patch.Parse("m.patch", []byte(patchText))
+	if err != nil {
+		return nil, nil, "patch rejected: " + firstWords(stripPos(err.Error()), 7)
+	}
+	if c.Decoy != "" {
+		_, _ = pf.Apply("a.go", []byte(c.Decoy))
+	}
+	out, aerr := pf.Apply("a.go", []byte(c.File))
+	return out, aerr, ""
+}
+
+// cliRunner runs the default (in-place) mode of the CLI.
+func cliRunner(env *core.Env, flags ...string) toolRunner {
+	return func(patchText string, c *MCase) ([]byte, error, string) {
+		sb := newSandbox(env, "mcli", map[string]string{"t/a.go": c.File, "m.patch": patchText})
+		defer sb.remove()
+		args := append([]string{"-p", sb.path("m.patch")}, flags...)
+		args = append(args, "a.go")
+		r := sb.run(false, "t", args, "")
+		if r.Panic != "" {
+			panic("gopatch CLI crashed: " + r.Panic)
+		}
+		if strings.Contains(r.Stderr, "load patch") {
+			return nil, nil, "patch rejected: " + firstWords(stripPos(r.Stderr), 9)
+		}
+		if r.Exit != 0 {
+			return nil, fmt.Errorf("exit %d: %s", r.Exit, r.Stderr), ""
+		}
+		return []byte(sb.read("t/a.go")), nil, ""
+	}
+}
+
+func judgeModelWith(c *MCase, opts canon.Options, run toolRunner) mverdict {
 	v := mverdict{}
 	cc, err := model.Compile(c.Change)
 	if err != nil {
 		panic(fmt.Sprintf("generator produced a change the model cannot parse: %v\n%s", err, c.Change.Render()))
 	}
 	v.PatchText = c.Change.Render()
-	pf, err := patch.Parse("m.patch", []byte(v.PatchText))
-	if err != nil {
-		v.Out = core.Outcome{Skip: "patch rejected: " + firstWords(stripPos(err.Error()), 7)}
-		return v
-	}
 	f, err := model.ParseFile([]byte(c.File))
 	if err != nil {
 		panic(fmt.Sprintf("generator produced an unparseable file: %v\n%s", err, c.File))
 	}
+	out, aerr, rejected := run(v.PatchText, c)
+	if rejected != "" {
+		v.Out = core.Outcome{Skip: rejected}
+		return v
+	}
 	a := model.Analyze(cc, f)
 	al := a.AllowedOutputs(opts)
 	v.Analysis, v.Allowed = a, al
-	if c.Decoy != "" {
-		_, _ = pf.Apply("a.go", []byte(c.Decoy))
-	}
-	out, aerr := pf.Apply("a.go", []byte(c.File))
 	v.ToolOut, v.ToolErr = out, aerr
 
 	o := core.Outcome{Nontrivial: al.Applies, Transitions: 1 + al.Mandatory + al.Optional, States: 1 + len(al.Canon)}
